@@ -5,7 +5,7 @@
 #include <algorithm>
 using namespace coloquinte;
 
-struct GenOpts { bool multirow = true, polarity = true, turned = true, fixed = true, splitrows = true, nets = false, mixedSplit = false, tile = false; int maxCells = 12; long long scale = 1; int utilLo = 30, utilHi = 110; };
+struct GenOpts { bool multirow = true, polarity = true, turned = true, fixed = true, splitrows = true, nets = false, mixedSplit = false, tile = false, abut = false; int maxCells = 12; long long scale = 1; int utilLo = 30, utilHi = 110; };
 
 struct TCircuit {   // textual circuit
   std::vector<std::array<long long, 5>> rows;                 // minX maxX minY maxY orient
@@ -51,8 +51,65 @@ inline TCircuit genTiled(SplitMix &g, const GenOpts &o) {
   return t;
 }
 
+// rows given in 2-4 pieces that ABUT exactly (one ends at X, the next starts at X) or are separated by a gap of 1, and 2-5 multi-row
+// cells (2-3 rows high) whose targets sit at, one left of and one right of such an X (left edge at the start of a piece) or at
+// X - width (+-1) (right edge at the end of a piece: the mirror case), mostly around ONE X so that they have to stack next to each
+// other; a few row-high cells around them.  Aims at the bookkeeping of the Tetris pass at the seam between two pieces of one row.
+inline TCircuit genAbut(SplitMix &g, const GenOpts &o) {
+  TCircuit t; long long sc = o.scale;
+  long long rh = g.uni(1, 4) * 2 * sc; int nrows = (int)g.uni(2, 5);
+  long long x0 = g.uni(-20, 20) * sc, y0 = g.uni(-20, 20) * sc;
+  bool common = g.coin(70), alt = g.coin(60);
+  std::vector<std::array<long long, 2>> seams;      // (X where a piece starts right after another one ended, row index)
+  std::vector<std::array<long long, 2>> ends;       // (X where a piece ends, row index)
+  std::vector<long long> cutw, cutg; long long W = 0;
+  auto draw = [&]() { cutw.clear(); cutg.clear(); int np = (int)g.uni(2, 4); for (int k = 0; k < np; ++k) { cutw.push_back(g.uni(2, 9) * sc); cutg.push_back(g.coin(70) ? 0 : (g.coin(50) ? 1 : sc)); } };
+  draw();
+  for (int i = 0; i < nrows; ++i) {
+    if (!common && i > 0) draw();
+    int ro = alt ? ((i % 2 == 0) ? 0 : 5) : 0;
+    long long x = x0;
+    for (size_t k = 0; k < cutw.size(); ++k) {
+      t.rows.push_back({x, x + cutw[k], y0 + i * rh, y0 + (i + 1) * rh, ro});
+      if (k > 0) seams.push_back({x, i});
+      x += cutw[k]; ends.push_back({x, i});
+      if (k + 1 < cutw.size()) x += cutg[k];
+    }
+    W = std::max(W, x - x0);
+  }
+  for (size_t i = t.rows.size(); i > 1; --i) std::swap(t.rows[i - 1], t.rows[g.uni(0, i - 1)]);
+  int nm = (int)g.uni(2, 5);
+  auto focus = seams[g.uni(0, seams.size() - 1)];
+  auto efocus = ends[g.uni(0, ends.size() - 1)];
+  bool mirrorAll = g.coin(30);
+  for (int i = 0; i < nm; ++i) {
+    std::array<long long, 8> c{};
+    int k = (int)std::min<long long>(nrows, g.uni(2, 3)); long long ww = g.uni(1, 4) * sc;
+    bool mirror = mirrorAll ? g.coin(85) : g.coin(10);
+    auto at = mirror ? (g.coin(80) ? efocus : ends[g.uni(0, ends.size() - 1)]) : (g.coin(80) ? focus : seams[g.uni(0, seams.size() - 1)]);
+    long long d = g.uni(-1, 1) * (g.coin(70) ? 1 : sc);
+    long long row = std::min<long long>(std::max<long long>(0, at[1] - g.uni(0, k - 1)), nrows - k);
+    c[0] = (mirror ? at[0] - ww : at[0]) + d; c[1] = y0 + row * rh + (g.coin(15) ? g.uni(-1, 1) * (g.coin(50) ? 1 : rh) : 0);
+    int pol = (o.polarity && g.coin(20)) ? (int)g.uni(1, 4) : 0;
+    int ori; if (pol == 0 && o.turned && g.coin(15)) ori = (int)g.uni(0, 7); else { int os[4] = {0, 1, 4, 5}; ori = os[g.uni(0, 3)]; }
+    bool turn = ori == 2 || ori == 3 || ori == 6 || ori == 7;
+    if (turn) { c[2] = k * rh; c[3] = ww; } else { c[2] = ww; c[3] = k * rh; }
+    c[4] = ori; c[5] = pol; c[6] = 0; c[7] = 1;
+    t.cells.push_back(c);
+  }
+  int ns = (int)g.uni(0, 4);
+  for (int i = 0; i < ns; ++i) {
+    long long ww = g.uni(1, 4) * sc; int pol = (o.polarity && g.coin(30)) ? (int)g.uni(1, 4) : 0; int os[4] = {0, 1, 4, 5};
+    t.cells.push_back({x0 + g.uni(-2, W / sc + 2) * sc, y0 + g.uni(-1, nrows) * rh, ww, rh, os[g.uni(0, 3)], pol, 0, 1});
+  }
+  if (o.fixed && g.coin(20)) t.cells.push_back({x0 + g.uni(0, W / sc) * sc, y0 + g.uni(0, nrows - 1) * rh, g.uni(1, 3) * sc, rh * g.uni(1, 2), 0, 0, 1, g.coin(80)});
+  for (size_t i = t.cells.size(); i > 1; --i) std::swap(t.cells[i - 1], t.cells[g.uni(0, i - 1)]);
+  return t;
+}
+
 inline TCircuit genCircuit(SplitMix &g, const GenOpts &o) {
   if (o.tile) return genTiled(g, o);
+  if (o.abut) return genAbut(g, o);
   TCircuit t; long long sc = o.scale;
   long long rh = g.uni(1, 4) * 2 * sc;
   int nrows = (int)g.uni(1, 6);
